@@ -2,7 +2,7 @@ CONSTANTS
   Pieces = {"A", "T", "N", "A#"}
   MinP = 1  MaxP = 4
   Alpha = {0, 3}
-  MinS = 1  MaxS = 7
+  MinS = 1  MaxS = 6
   Budgets = {0, 1, 2}
   Modes = {0, 1}
   WinSet = "many"
